@@ -197,7 +197,7 @@ func vRunLookup(t *testing.T, c *vh.Case, sc vLkScenario) *vLkResult {
 		}
 		liar := ""
 		if !sc.AllAnswer && kind == "ok" && r.Float64() < sc.LiarFrac {
-			liar = []string{"self", "dup", "stranger", "huge", "selfonly"}[r.Intn(5)]
+			liar = []string{"self", "dup", "stranger", "huge", "selfonly", "hugeself"}[r.Intn(6)]
 		}
 		res.behaviour[id] = kind + "/" + liar
 		idx := i
@@ -247,6 +247,16 @@ func vRunLookup(t *testing.T, c *vh.Case, sc vLkScenario) *vLkResult {
 						var xs []peer.AddrInfo
 						for j := 0; j < 200; j++ {
 							xs = append(xs, n.S.AddrInfoOf(n.IDs[(idx+j)%len(n.IDs)]))
+						}
+						resp.CloserPeers = pb.RawPeerInfosToPBPeers(xs)
+					case "hugeself":
+						// more than 2K entries, and the requester itself listed many times behind them
+						var xs []peer.AddrInfo
+						for j := 0; j < 200; j++ {
+							xs = append(xs, n.S.AddrInfoOf(n.IDs[(idx+j)%len(n.IDs)]))
+						}
+						for j := 0; j < 1+idx%40; j++ {
+							xs = append(xs, self)
 						}
 						resp.CloserPeers = pb.RawPeerInfosToPBPeers(xs)
 					}
